@@ -34,6 +34,8 @@ func runC16(r *Run, p *Prog) {
 	// cached or created anywhere but in the wrapper's constructor can be handed to two connections, whose helper
 	// goroutines then race on it although each connection is used by one goroutine at a time
 	siblingRules(r, p, "C02", []string{"F3"}, "BR")
+	// LB: lock balance (lockbalance.go)
+	r.Guard("LB", func() { lockBalanceRule(r, p, "LB", pkgVarlink, pkgCtxio) })
 	fns := p.FuncsOf(pkgVarlink)
 	ls := ComputeLockSets(p, cg, fns)
 	if ls == nil {
